@@ -355,6 +355,7 @@ def u_average_reward(ctx):
     seen_starts_runs = 0
     for c in range(ctx.n(30, 300)):
         multi = c % 2 == 1
+        cap_pre = [None, 1, 2, 4, 16, 0][int(ctx.rng.integers(0, 6))] if c % 7 else 0  # 0: the helper takes no step at all
         n_ep = int(ctx.rng.integers(1, 6))
         nA = int(ctx.rng.integers(2, 4))
         if multi:
@@ -389,8 +390,9 @@ def u_average_reward(ctx):
             tabs = random_tables(ctx.rng, nS, nA, p_term=0.25, n_starts=1)
             table = ctx.rng.integers(0, nA, nS)
             tl = [None, 2, 3, 6][int(ctx.rng.integers(0, 4))]
-            if (c // 2) % 2 == 0 and tl is None:
-                tl = 3  # these cases take the uncapped path below: the episode must end on its own
+            if ((c // 2) % 2 == 0 or cap_pre == 0) and tl is None:
+                tl = 3  # these cases take the uncapped path below (or would, if a zero cap were mistaken for "no cap"):
+                #         the episode must end on its own
         env = FiniteMDP(tabs["P"], tabs["R"], tabs["term"], tabs["starts"])
         ref = RefMDP(tabs["P"], tabs["R"], tabs["term"], tabs["starts"], time_limit=tl)
         if tl:
@@ -420,7 +422,7 @@ def u_average_reward(ctx):
                     return None, False
             return tot, False
 
-        cap = [None, 1, 2, 4, 16][int(ctx.rng.integers(0, 5))]
+        cap = cap_pre
         if type(pol).__name__ == "KeyAwareTablePolicy" and (c // 2) % 2 == 0:
             cap = None  # the uncapped (while-loop) path of the helper
         rets = {int(s): ref_return(int(s), cap) for s in tabs["starts"]}
@@ -451,6 +453,10 @@ def u_average_reward(ctx):
                 if full is not None and cap is not None and abs(got - full) < 1e-5 * max(1, abs(full)):
                     key = "average-reward-ignores-step-cap"
                 ctx.violation(key, {**info, "got": got, "want": want})
+        elif cap == 0:
+            ctx.monitor("zero_step_cap_evaluations")
+            if got != 0.0:
+                ctx.violation("average-reward-ignores-step-cap", {**info, "got": got, "want": 0.0})
         else:
             total = got * n_ep
             base = n_ep + 1
